@@ -258,3 +258,83 @@ Definition prop_idxgen (input obs : val) : val :=
                       end) (snd qg)) (combine qs got))
     then fail3 "offset-does-not-decode-to-the-key" cls
     else VT "ok".
+
+(* ---- kind idxbig: large buckets (above the 1 MiB read chunk of Unmarshal) -------------------------
+   A 30 000-record bucket is out of reach of the extracted layer-A functions (list-based compact
+   buckets make ForEach / canon quadratic), so for this kind ONLY the layer-B side is evaluated:
+   [run_idxbig] computes what the property demands of the implementation -- the byte count from the
+   format's arithmetic, the lookups from [spec_offsets_digest] / [spec_offsets_mh] over the record
+   list -- and [prop_idxbig] compares the implementation's observation with it clause by clause.  The
+   record set is given by a rule shared with the harness (harness/p_c11.go c11BigRecords):
+     input = (codec, (codeA dlA nA) (codeB dlB nB) ndup, samples, trailer)
+     bucket A: record i < nA has digest  be64(i * big_mult mod 2^64) ++ a5^(dlA-8), offset 1000 + 3 i
+     bucket B: likewise with offset 7 + 5 i;  dlA <> dlB, codeA <> codeB, dl >= 8
+     dups: record j < ndup repeats the digest of A's record (7 j mod nA) at offset 5*10^9 + j
+     samples: (bucket, i) pairs; i beyond the bucket's size names an absent key
+   observation = (tok reported byteslen structure entries (tok rest same|diff) foreach getalls)
+     structure: the harness's own byte-level parse found ascending codes/widths/digests and exactly
+     the given (digest, offset) multiset; entries: records found by that parse;
+     foreach: ForEach callbacks (multihash codec) or entries again (car-index-sorted). *)
+Definition big_mult : N := 11400714819323198485.
+(* big-endian 64-bit word by shifts and masks (N.div on 64-bit values is too slow 240 000 times) *)
+Definition be64 (x : N) : bytes :=
+  map (fun k => n2b (N.land (N.shiftr x (8 * k)) 255)) [7; 6; 5; 4; 3; 2; 1; 0].
+Definition big_digest (dl i : N) : bytes :=
+  be64 (N.land (i * big_mult) 18446744073709551615) ++ N.iter (dl - 8) (cons xa5) [].
+Definition big_bucket (code dl n off0 step : N) : list irec :=
+  rev_append (snd (N.iter n (fun st => (fst st + 1,
+                                 mkrec [] code (big_digest dl (fst st)) (off0 + step * fst st) :: snd st))
+                  (0, []))) [].
+Definition big_dups (codeA dlA nA ndup : N) : list irec :=
+  rev_append (snd (N.iter ndup (fun st => (fst st + 1,
+                                    mkrec [] codeA (big_digest dlA ((7 * fst st) mod nA)) (5000000000 + fst st) :: snd st))
+                  (0, []))) [].
+Definition big_recs (d : val) : list irec :=
+  let a := vnth 0 d in let b := vnth 1 d in
+  big_bucket (vN (vnth 0 a)) (vN (vnth 1 a)) (vN (vnth 2 a)) 1000 3 ++
+  big_bucket (vN (vnth 0 b)) (vN (vnth 1 b)) (vN (vnth 2 b)) 7 5 ++
+  big_dups (vN (vnth 0 a)) (vN (vnth 1 a)) (vN (vnth 2 a)) (vN (vnth 2 d)).
+
+(* bytes WriteTo must produce, from the format: codec varint, int32 count, per bucket 4+8+data,
+   per hash code 8 + the nested index *)
+Definition big_expected_len (codec : N) (d : val) : N :=
+  let a := vnth 0 d in let b := vnth 1 d in
+  let na := vN (vnth 2 a) + vN (vnth 2 d) in
+  let nb := vN (vnth 2 b) in
+  let ba := if na =? 0 then 0 else 12 + na * (vN (vnth 1 a) + 8) in
+  let bb := if nb =? 0 then 0 else 12 + nb * (vN (vnth 1 b) + 8) in
+  if codec =? codec_sorted then uv_size codec + 4 + ba + bb
+  else uv_size codec + 4 + (if na =? 0 then 0 else 8 + 4 + ba) + (if nb =? 0 then 0 else 8 + 4 + bb).
+
+Definition big_sample_key (d : val) (s : val) : N * bytes :=
+  let bk := vnth (if vN (vnth 0 s) =? 0 then 0 else 1) d in
+  (vN (vnth 0 bk), big_digest (vN (vnth 1 bk)) (vN (vnth 1 s))).
+
+Definition big_expected (input : val) : val :=
+  let codec := vN (vnth 0 input) in
+  let d := vnth 1 input in
+  let samples := vL (vnth 2 input) in
+  let trailer := vB (vnth 3 input) in
+  let rs := big_recs d in
+  let total := N.of_nat (length rs) in
+  VL [VT "ok"; VN (big_expected_len codec d); VN (big_expected_len codec d); VN 1; VN total;
+      VL [VT "ok"; VN (blen trailer); VT "same"]; VN total;
+      VL (map (fun s => let k := big_sample_key d s in
+                        v_offs (sort_N (if codec =? codec_sorted then spec_offsets_digest rs (snd k)
+                                        else spec_offsets_mh rs (fst k) (snd k)))) samples)].
+
+Definition run_idxbig (input : val) : val := big_expected input.
+
+Definition prop_idxbig (input obs : val) : val :=
+  let want := big_expected input in
+  if negb (is_tag (vnth 0 obs) "ok") then fail "large-index-not-written"
+  else if negb (val_eqb (vnth 1 obs) (vnth 2 obs)) then fail "reported-length-differs-from-bytes-written"
+  else if negb (val_eqb (vnth 2 obs) (vnth 2 want)) then fail "serialized-length-differs-from-format"
+  else if negb (val_eqb (vnth 3 obs) (VN 1)) then fail "buckets-or-entries-not-ascending-or-records-lost"
+  else if negb (val_eqb (vnth 4 obs) (vnth 4 want)) then fail "record-count-differs"
+  else if negb (is_tag (vnth 0 (vnth 5 obs)) "ok") then fail "roundtrip-read-failed"
+  else if negb (val_eqb (vnth 1 (vnth 5 obs)) (vnth 1 (vnth 5 want))) then fail "roundtrip-consumed-wrong-byte-count"
+  else if negb (is_tag (vnth 2 (vnth 5 obs)) "same") then fail "roundtrip-remarshal-differs"
+  else if negb (val_eqb (vnth 6 obs) (vnth 6 want)) then fail "roundtrip-iteration-differs"
+  else if negb (val_eqb (vnth 7 obs) (vnth 7 want)) then fail "lookup-differs-from-record-multiset"
+  else VT "ok".
